@@ -442,8 +442,11 @@ Lemma cpd_cons counters f e rest p :
   create_parent_deletion_counter_diff counters (S f) (e :: rest) p =
   if counters (p ++ [seg (dkey e)]) then CParentDeleted (dkey e) :: create_parent_deletion_counter_diff counters (S f) rest p
   else match e with
-       | DPatch k dd => CPatch k (create_parent_deletion_counter_diff counters f dd (p ++ [seg (dkey e)]))
-                        :: create_parent_deletion_counter_diff counters (S f) rest p
+       | DPatch k dd =>
+           match create_parent_deletion_counter_diff counters f dd (p ++ [seg (dkey e)]) with
+           | [] => create_parent_deletion_counter_diff counters (S f) rest p
+           | subdiff => CPatch k subdiff :: create_parent_deletion_counter_diff counters (S f) rest p
+           end
        | _ => create_parent_deletion_counter_diff counters (S f) rest p
        end.
 Proof. destruct e; reflexivity. Qed.
@@ -456,7 +459,28 @@ Proof.
   rewrite cpd_cons. destruct Hin as [->|Hin].
   - rewrite Hc. left. reflexivity.
   - specialize (IH Hin Hc). destruct (counters (p ++ [seg (dkey h)])); [right; exact IH|].
-    destruct h; try exact IH. right. exact IH.
+    destruct h; try exact IH.
+    match goal with |- In _ (match ?c with [] => _ | _ => _ end) => destruct c; [exact IH | right; exact IH] end.
+Qed.
+
+(* every patch entry of a counter diff has a non-empty sub-diff (generic.py: "if subdiff:") *)
+Fixpoint centry_nonempty (c : centry) : bool :=
+  match c with
+  | CParentDeleted _ => true
+  | CPatch _ d => negb (match d with [] => true | _ => false end) && forallb centry_nonempty d
+  end.
+
+Lemma cpd_nonempty counters f : forall d p,
+  forallb centry_nonempty (create_parent_deletion_counter_diff counters f d p) = true.
+Proof.
+  induction f as [|f IHf]; intros d p; [reflexivity|].
+  induction d as [|e rest IH]; [reflexivity|].
+  rewrite cpd_cons. destruct (counters (p ++ [seg (dkey e)])); [exact IH|].
+  destruct e; try exact IH.
+  pose proof (IHf d (p ++ [seg (dkey (DPatch k d))])) as Hs.
+  destruct (create_parent_deletion_counter_diff counters f d (p ++ [seg (dkey (DPatch k d))])) as [|c cs]; [exact IH|].
+  cbn [forallb]. apply andb_true_iff. split; [|exact IH].
+  cbn [centry_nonempty]. apply andb_true_iff. split; [reflexivity | exact Hs].
 Qed.
 
 Lemma not_transient_under_source s :
@@ -495,7 +519,7 @@ Example countered_example :
   let d := [DPatch (KS (of_ascii "metadata"%string)) [DReplace (KS (of_ascii "collapsed"%string)) (JBool true)];
             DPatch (KS p_source) [DAddRange (KI 0) (VList [JStr [120; 10]])]] in
   delete_vs_patch default_counters 3 d cell_path default_transients
-  = CounterDeletion [CPatch (KS (of_ascii "metadata"%string)) []; CParentDeleted (KS p_source)]
+  = CounterDeletion [CParentDeleted (KS p_source)]
   /\ delete_vs_patch default_counters 3 [DPatch (KS (of_ascii "metadata"%string)) [DReplace (KS (of_ascii "collapsed"%string)) (JBool true)]]
        cell_path default_transients = TakeDeletion.
 Proof. vm_compute. split; reflexivity. Qed.
